@@ -48,6 +48,7 @@ func GenOps(rt *rapid.T, n int, kinds []string) []Op {
 			op.Pfx = hx.AdversarialKeys[rapid.IntRange(0, 7).Draw(rt, "pfx")]
 		case "retain":
 			op.A = rapid.IntRange(0, 255).Draw(rt, "mask")
+			op.B = rapid.IntRange(0, 3).Draw(rt, "late")
 		case "restore":
 			op.A = rapid.IntRange(0, 7).Draw(rt, "which")
 			op.B = rapid.IntRange(0, 31).Draw(rt, "chain")
